@@ -441,3 +441,114 @@ def cancellation_obligations(prog, rule, rels):
     if not lints.expanded_square_distance(Resolver(ex).term(ex.body[-1].value, at=ex.body[-1])):
         raise AnalysisError("cancellation lint lost its positive example")
     return out
+
+
+def overflow_obligations(prog, rule, classes, methods=None, bounded=("theta",)):
+    """One obligation per method (of the given classes) whose returned term contains an exponential: an exp-like factor whose
+    argument depends on the data and is not provably <= 0 must reach the result through a denominator (or log1p / logaddexp /
+    tanh), where it saturates; as a plain factor or numerator it overflows to inf for admissible inputs and inf * 0 or
+    inf / inf gives nan where the true value is finite (see lints.unsaturated_exp)."""
+    from .. import lints
+    from ..term import Resolver
+    from ..model import qual
+    out = []
+    EXPS = ("exp", "expm1", "exp2", "sinh", "cosh")
+    for ci in classes:
+        res = {}
+        for c in prog.mro(ci):
+            for m, fn in c.methods.items():
+                rz0 = Resolver(fn, prog, c.module, c)
+                for st in ast.walk(fn):
+                    if isinstance(st, ast.Assign) and len(st.targets) == 1 and isinstance(st.targets[0], ast.Attribute) \
+                            and U(st.targets[0].value) == "self":
+                        res.setdefault(st.targets[0].attr, []).append(rz0.term(st.value, st))
+        for m, fn in ci.methods.items():
+            if methods is not None and m not in methods:
+                continue
+            rz = Resolver(fn, prog, ci.module, ci)
+            rets = rz.return_terms()
+            if not any(isinstance(n, ast.Call) and U(n.func).split(".")[-1] in EXPS for t in rets for n in ast.walk(t)):
+                continue
+            bd = [a.arg for a in fn.args.args if a.arg in bounded]
+            hits = [h for t in rets for h in lints.unsaturated_exp(t, bd, res)]
+            msg = ""
+            if hits:
+                msg = (f"`{U(hits[0])[:120]}` can exceed the floating-point range for admissible inputs (its argument depends on the "
+                       f"data and is not provably <= 0) and its value reaches the result as a plain factor or numerator, not through a "
+                       f"denominator: inf * 0 or inf / inf gives nan where the true value is finite")
+            out.append(struct_ob(rule, qual(ci, fn), not hits, msg, ci.module.relpath, fn.lineno, tier="F"))
+    ex = ast.parse("expm1(z) / (exp(z) + 1)", mode="eval").body
+    if len(lints.unsaturated_exp(ex)) != 1:
+        raise AnalysisError("overflow lint lost its positive example")
+    return out
+
+
+def stored_state_obligations(prog, rule, sites, what, scalar_ok=True):
+    """One obligation per (class, method, roots, paths): inside the method no object stored in / reached from the named roots
+    (and, if `paths` is given, only those access paths) is updated in place through a local alias, an element or a view
+    (see own.state_sinks).  `roots` maps local names (the receiver, a parameter) to labels."""
+    from ..own import state_sinks
+    from ..model import qual
+    out = []
+    for ci, fn, roots, paths in sites:
+        hits = [h for h in state_sinks(fn, roots) if paths is None or h[0] in paths]
+        if scalar_ok:
+            hits = [h for h in hits if not _scalar_attr(prog, h[0])]
+        msg = ""
+        if hits:
+            pth, line, text = hits[0]
+            msg = f"`{text}` (line {line}) updates `{pth}` in place (through a local alias / element / view): {what}"
+        out.append(struct_ob(rule, qual(ci, fn) if ci is not None else fn.name, not hits, msg, ci.module.relpath if ci is not None else "",
+                             hits[0][1] if hits else fn.lineno, slots={"roots": sorted(roots), "sinks": [list(h) for h in hits]}))
+    ex = ast.parse("def f(cls, priors):\n    v = priors[0].variables\n    for p in priors[1:]:\n        v += p.variables\n    return v\n").body[0]
+    if not state_sinks(ex, {"priors": "priors"}):
+        raise AnalysisError("stored-state analysis lost its positive example")
+    return out
+
+
+def _scalar_attr(prog, path):
+    """The last attribute of the path is, in every class that assigns it in a constructor, a plain number (x.size, len(..), a literal,
+    int(..) / float(..)): `n = obj.count; n += 1` re-binds a local and updates nothing."""
+    attr = path.rsplit(".", 1)[-1].rstrip("[]")
+    vals = []
+    for ci in prog.classes.values() if isinstance(prog.classes, dict) else prog.classes:
+        init = ci.methods.get("__init__")
+        if init is None:
+            continue
+        for st in ast.walk(init):
+            if isinstance(st, ast.Assign):
+                for t in st.targets:
+                    if isinstance(t, ast.Attribute) and t.attr == attr and isinstance(t.value, ast.Name):
+                        vals.append(st.value)
+    def scalar(v):
+        if isinstance(v, ast.Constant):
+            return isinstance(v.value, (int, float, bool, str)) or v.value is None
+        if isinstance(v, ast.Attribute) and v.attr in ("size", "ndim"):
+            return True
+        if isinstance(v, ast.Call) and U(v.func) in ("len", "int", "float", "bool", "str"):
+            return True
+        if isinstance(v, ast.BinOp):
+            return scalar(v.left) and scalar(v.right)
+        return False
+    return bool(vals) and all(scalar(v) for v in vals)
+
+
+def borrow(prog, tier, module_name, rules, new_rule, why):
+    """Obligations of another property's rule module that are also necessary conditions of this property (one clause shared by
+    two properties, decided once): re-labelled `new_rule`; the original rule name is kept in the detail.  Must be called before
+    the borrowing module builds its own algebraic state (both reset the atom tables)."""
+    import importlib
+    from .. import anf
+    mod = importlib.import_module(f"sa.rules.{module_name}")
+    obs, _, _ = mod.run(prog, tier)
+    out = []
+    for o in obs:
+        if o.rule in rules:
+            o.slots = dict(o.slots or {})
+            o.slots["borrowed_from"] = f"{module_name}.{o.rule}"
+            o.slots["shared_clause"] = why
+            o.detail = (o.detail + " " if o.detail else "") + f"[{module_name}.{o.rule}]"
+            o.rule = new_rule
+            out.append(o)
+    anf.reset()
+    return out
